@@ -198,7 +198,7 @@ func checkC03(c *Check) {
 			}
 			inst := ss.typ + ".State=" + ss.kname + " in " + fnName(fn)
 			ok := false
-			if a, isA := ss.fa.X.(*ssa.Alloc); isA && a.Comment == "complit" {
+			if a, isA := ss.fa.X.(*ssa.Alloc); isA && freshRecord(a) {
 				// constructor: every Set in fn dominated by Has(key)==false with same key
 				ok = true
 				nset := 0
@@ -781,4 +781,21 @@ func (c *Check) statePersistedRule(rule string, kfuncs []*ssa.Function) {
 			c.Ob(rule, inst, ss.st.Pos(), ok, detail)
 		}
 	}
+}
+
+// freshRecord: the local is built in place (composite literal or field-by-field), never assigned as a whole from
+// somewhere else (a loaded record).
+func freshRecord(a *ssa.Alloc) bool {
+	if a.Comment == "complit" {
+		return true
+	}
+	if a.Referrers() == nil {
+		return false
+	}
+	for _, r := range *a.Referrers() {
+		if st, ok := r.(*ssa.Store); ok && st.Addr == ssa.Value(a) {
+			return false
+		}
+	}
+	return true
 }
